@@ -97,6 +97,7 @@ type world struct {
 	c       *kernel.Ctx
 	gen     *simnode.GenesisSpec
 	txg     *txgen.Gen // workload generator and reference ledger
+	life    *txgen.LifeGen // contract storage life cycles and their storage model
 	key     simnode.ValKey
 	isTrie  bool
 	scratch string
